@@ -15,7 +15,9 @@ import time
 import traceback
 
 VERIF = os.path.dirname(os.path.dirname(os.path.abspath(__file__)))
-REPO = "/repo"
+# VERIF_REPO: only for background exploration on a snapshot of the repository (vp run --with-repo); the registered
+# checks always use /repo
+REPO = os.environ.get("VERIF_REPO") or "/repo"
 TARGET = os.path.join(VERIF, "target")
 HARNESS_DIR = os.path.join(VERIF, "harness")
 EVALSRV = os.path.join(TARGET, "harness", "release", "evalsrv")
@@ -45,6 +47,21 @@ def _run_build(cmd, env, what):
     return time.time() - t0
 
 
+def _harness_manifest():
+    """The harness depends on the repository by path; for a repository snapshot a patched copy of the crate is used."""
+    if REPO == "/repo":
+        return os.path.join(HARNESS_DIR, "Cargo.toml")
+    dst = os.path.join(TARGET, "harness_src")
+    import shutil
+    shutil.rmtree(dst, ignore_errors=True)
+    shutil.copytree(HARNESS_DIR, dst, ignore=shutil.ignore_patterns("target"))
+    with open(os.path.join(dst, "Cargo.toml")) as f:
+        t = f.read()
+    with open(os.path.join(dst, "Cargo.toml"), "w") as f:
+        f.write(t.replace('"/repo/', '"' + REPO.rstrip("/") + "/"))
+    return os.path.join(dst, "Cargo.toml")
+
+
 def build_harness():
     lock_src = os.path.join(REPO, "Cargo.lock")
     lock_dst = os.path.join(HARNESS_DIR, "Cargo.lock")
@@ -52,8 +69,7 @@ def build_harness():
         with open(lock_src, "rb") as f, open(lock_dst, "wb") as g:
             g.write(f.read())
     env = dict(CARGO_ENV, CARGO_TARGET_DIR=os.path.join(TARGET, "harness"))
-    return _run_build(["cargo", "build", "--release", "--offline", "--manifest-path",
-                       os.path.join(HARNESS_DIR, "Cargo.toml")], env, "harness")
+    return _run_build(["cargo", "build", "--release", "--offline", "--manifest-path", _harness_manifest()], env, "harness")
 
 
 ASAN_EVALSRV = os.path.join(TARGET, "asan", "x86_64-unknown-linux-gnu", "release", "evalsrv")
@@ -64,7 +80,7 @@ def build_asan():
     env = dict(CARGO_ENV, CARGO_TARGET_DIR=os.path.join(TARGET, "asan"),
                RUSTFLAGS="-Zsanitizer=address -Cforce-frame-pointers=yes")
     return _run_build(["cargo", "+nightly", "build", "--release", "--offline", "--target", "x86_64-unknown-linux-gnu",
-                       "--manifest-path", os.path.join(HARNESS_DIR, "Cargo.toml"), "--bin", "evalsrv"], env, "ASan evalsrv")
+                       "--manifest-path", _harness_manifest(), "--bin", "evalsrv"], env, "ASan evalsrv")
 
 
 def build_cli():
